@@ -109,7 +109,7 @@ func body(w *run.Worker) {
 	w.Exhaustive("read_offsets_of_small_objects", complete)
 	w.Cases("batch_direct", w.N(800, 16000), func(c *run.Case) { caseBatch(c, w, nil) })
 	w.Cases("batch_wire", w.N(160, 3000), func(c *run.Case) {
-		env := newWireEnv(c.Rng)
+		env := newWireEnv(c.Rng, true)
 		defer env.drain()
 		caseBatch(c, w, env)
 	})
